@@ -53,6 +53,7 @@ type Ctx struct {
 	capped   bool
 	maxCases int
 	trace    bool
+	list     bool
 	next     int // first own case not run because the worker is being recycled
 	deadline time.Time
 }
@@ -85,6 +86,7 @@ func FromEnv() *Ctx {
 		next:     -1,
 		maxCases: envInt("VF_MAXCASES", 0),
 		trace:    os.Getenv("VF_TRACE") != "",
+		list:     os.Getenv("VF_LIST") != "",
 	}
 	if c.Tier == "" {
 		c.Tier = "quick"
@@ -163,6 +165,10 @@ func (c *Ctx) mine(n int) bool {
 func (c *Ctx) Case(name string, fn func()) bool {
 	n := c.n
 	c.n++
+	if c.list {
+		c.emit(map[string]interface{}{"t": "L", "n": n, "name": name})
+		return false
+	}
 	if !c.mine(n) {
 		return false
 	}
